@@ -20,6 +20,7 @@ from .core import AnalysisError, unparse
 from .poly import Rat, func_atom, single_atom
 from .symeval import (Evaluator, Arr, Opaque, Obj, RaiseReached, dict_key, const_int, vkey, _Return)
 
+_IMPORT_CACHE: dict = {}
 KIND: dict = {}        # numeric atom -> 'float' | 'int'
 POSITIVE: set = set()  # atoms known to be >= 1 (lengths of words)
 
@@ -297,7 +298,36 @@ class ObjEvaluator(Evaluator):
             raise PyRaise("AttributeError", node, "%s has no attribute %s" % (base.name, node.attr))
         if isinstance(base, (SStr, Sym, str, dict, list)):
             return ("method", base, node.attr)
-        return Evaluator.e_Attribute(self, node, env)
+        r = Evaluator.e_Attribute(self, node, env)
+        if isinstance(r, tuple) and len(r) == 2 and r[0] == "import":
+            v = self.resolve_import(r[1])
+            if v is not None:
+                return v
+        return r
+
+    def resolve_import(self, dotted):
+        """a module-level constant (or re-exported import) of another module of the repository, evaluated there"""
+        parts = dotted.split(".")
+        for cut in range(len(parts) - 1, 0, -1):
+            rel = "/".join(parts[:cut]) + ".py"
+            try:
+                from . import core as _core
+                other = _core.module(rel)
+            except AnalysisError:
+                continue
+            rest = parts[cut:]
+            if len(rest) != 1:
+                return None
+            name = rest[0]
+            if name in other.assigns:
+                key = (rel, name)
+                if key not in _IMPORT_CACHE:
+                    _IMPORT_CACHE[key] = ObjEvaluator(other).module_constant(name)
+                return _IMPORT_CACHE[key]
+            if name in other.imports and not other.imports[name].startswith(parts[0] + "."):
+                return ("import", other.imports[name])
+            return None
+        return None
 
     def find_method(self, obj, name):
         cls = getattr(obj, "cls", None)
@@ -453,7 +483,7 @@ class ObjEvaluator(Evaluator):
                 d = fmt[i + 1]
                 if d == "%":
                     parts.append("%")
-                elif d in "sdr":
+                elif d in "sdri":
                     if k >= len(vals):
                         raise PyRaise("TypeError", node, "not enough arguments for format string")
                     parts.append(self.to_text(vals[k], node))
@@ -496,6 +526,16 @@ class ObjEvaluator(Evaluator):
             return r if isinstance(op, ast.Eq) else not r
         if isinstance(op, (ast.In, ast.NotIn)) and isinstance(b, (list, tuple, dict)) and isinstance(a, str):
             r = a in list(b)
+            return r if isinstance(op, ast.In) else not r
+        if isinstance(op, (ast.In, ast.NotIn)) and isinstance(b, dict):
+            k = dict_key(a)
+            try:
+                hash(k)
+            except TypeError:
+                raise AnalysisError("E7: membership test with a non-constant key (line %d)" % node.lineno)
+            if isinstance(k, Rat) or (isinstance(k, tuple) and any(isinstance(x, (Rat, Opaque, Arr)) for x in k)):
+                raise AnalysisError("E7: membership test with a non-constant key (line %d)" % node.lineno)
+            r = k in b
             return r if isinstance(op, ast.In) else not r
         if isinstance(op, (ast.In, ast.NotIn)) and isinstance(b, (str,)) and isinstance(a, str):
             r = a in b
